@@ -1213,7 +1213,18 @@ func (r *raft) Step(m *pb.Message) error {
 		if len(m.GetEntries()) > 0 {
 			index := m.GetEntries()[len(m.GetEntries())-1].GetIndex()
 			r.appliedTo(index, entsSize(m.GetEntries()))
-			r.reduceUncommittedSize(payloadsSize(m.GetEntries()))
+			// Only the entries this leader proposed in its current term were
+			// counted by increaseUncommittedSize (the count restarts at zero
+			// when the term or the role changes); releasing quota for older
+			// entries would make the leader accept more than the limit while
+			// its log cannot advance.
+			var size entryPayloadSize
+			for _, e := range m.GetEntries() {
+				if e.GetTerm() == r.Term {
+					size += payloadSize(e)
+				}
+			}
+			r.reduceUncommittedSize(size)
 		}
 
 	case pb.MsgVote, pb.MsgPreVote:
